@@ -336,20 +336,29 @@ def run(prog, run):
 def r7_own_address(prog, run):
     """what the managers compare the sender with is the account address as configured now"""
     from ..effects import field_uses
-    rid = run.rule('C11.R7', 'configuration().jidBare() - the value the sender is compared with - is computed from the configured user and domain at the time of the call; if it is '
-                             'served from a cached member, every function that writes the user or the domain also invalidates that member', floor=1)
+    rid = run.rule('C11.R7', 'configuration().jidBare() - the value the sender is compared with - is computed from the configured user and domain at the time of the call; if it '
+                             'answers from any other member (a cached or stored copy of the address), every function that writes the user or the domain also writes that member', floor=1)
     jb = prog.fn('QXmppConfiguration::jidBare')
     run.instance(rid)
-    reads, writes = set(), set()
+    # the configured address: the members the user() and domain() accessors return
+    primary = set()
+    for nm in ('user', 'domain'):
+        g = prog.fn('QXmppConfiguration::' + nm)
+        for _, r in g.returns():
+            if 'e' in r and g.nodes[g.skip(r['e'])]['k'] == 'mem':
+                primary.add(g.nodes[g.skip(r['e'])]['f'])
+    if len(primary) != 2:
+        raise AnalysisBroken('C11.R7: the members behind QXmppConfiguration::user() / domain() were not identified')
+    touched = set()
     for i, n in enumerate(jb.nodes):
         if n['k'] == 'mem' and (n.get('f') or '').startswith('QXmppConfigurationPrivate::'):
-            k, h = classify_use(jb, i)
-            (writes if k in ('write', 'addr') else reads).add(n['f'])
-    sources = reads - writes
-    if not sources:
+            touched.add(n['f'])
+    if not touched:
         raise AnalysisBroken('C11.R7: QXmppConfiguration::jidBare reads no configuration member')
+    sources = primary
+    writes = touched - primary          # anything else jidBare() answers from is a copy of the address: it has to follow every change of user / domain
     if not writes:
-        run.ok(rid, jb.loc(), 'jidBare() is computed from %s on every call' % ', '.join(sorted(x.split('::')[-1] for x in sources)))
+        run.ok(rid, jb.loc(), 'jidBare() is computed from %s on every call' % ', '.join(sorted(x.split('::')[-1] for x in touched)))
         return
     bad = []
     setters = {}
